@@ -67,7 +67,31 @@ CLAIMS = {
         "note": "Witness documents are a finite sample for the grammar clause (necessary condition); the drawing clause is by construction (str::lines + whitespace guard). Genuine defect repaired by fix: commit cc9a377.",
         "technique": "MIR control dependence + grammar interpretation of witness documents + ADT field census",
     },
+    "C03": {
+        "text": "Per-cell clause decided exhaustively by table abstract evaluation: for `-`, `|`, `+` and all 4^8 neighbourhoods over {blank,-,|,+} (196 608 cases) the fragments yielded by the behaviour table (syntax tree), folded to exact rationals with grid constants taken from the MIR of the current source, stroke exactly the statement's point set; label characters have no table entry and only table characters enter the property buffer; the evaluator's predicate/constructor models are re-derived from MIR on every run (fail closed).",
+        "design_ref": "DESIGN.md section 4 C03",
+        "note": "Decides the per-cell strokes, not the global merge into maximal lines nor the replacement of four lines by a rect (endorse); those depend on float geometry and a greedy order at run time.",
+        "technique": "table abstract evaluation over syntax-tree literals + MIR constant folding + model conformance rules",
+    },
+    "C09": {
+        "text": "Structural decision of run continuity and merge plumbing: every run character (9 ASCII, all box-drawing line glyphs) yields edge-to-edge segment(s) that join the neighbour's across the cell border into one straight line (exact rationals); Line::merge keeps extreme end points and ORs the dashed flag, can_merge = touching and both ends collinear, Fragment::merge dispatches (Line,Line) to it; contacts are built only from merge_fragment_spans = merge_recursive, which is a fixpoint (recursion while the item count shrinks, push only when unmerged).",
+        "design_ref": "DESIGN.md section 4 C09",
+        "note": "Does not decide util::is_collinear's float threshold nor the greedy merge order: the known split of long diagonals is outside the decided clause.",
+        "technique": "table abstract evaluation + MIR expression/control-dependence rules + syntax-tree rule for the `||`",
+    },
+    "C12": {
+        "text": "Structural decision of the canvas clause: size formula scale x (max + 2) x cell dimension with the (0,0) fallback, bounds() = min/max over occupied cells; every position-carrying CellBuffer field that is rendered is read by bounds() (known finding: escaped_text); every table fragment (ascii behaviour entries and unicode glyphs, exact arc geometry) stays in its cell or reaches at most one cell left/up only under a condition that implies a character there (residual-formula satisfiability) and at most one cell right/down; catalogue circles stay within drawing plus margin.",
+        "design_ref": "DESIGN.md section 4 C12",
+        "note": "Text width is font dependent and not bounded. Known finding C12/unbounded-position-field/CellBuffer.escaped_text (pinned test forbids a repair).",
+        "technique": "MIR expression patterns + field read census over the call graph + table abstract evaluation with partial evaluation of conditions",
+    },
+    "C13": {
+        "text": "Table clause for the circle catalogue: formulas of CircleArt (width, radius, centre, diameter, edge increment) pinned to the code; for each of the >= 22 drawings the edge case agrees with the left-most glyphs, radius = (n-1)/2 or n/2, horizontal extent equals the drawing's, every glyph's cell is within half a cell diagonal of the circle, centre near the vertical middle, diameter keys pairwise distinct; lookup uses the localised span and CIRCLES_SPAN stores unfilled circles built from centre()/radius().",
+        "design_ref": "DESIGN.md section 4 C13",
+        "note": "Does not decide the run-time subset matching (that a placed drawing yields exactly one circle and nothing else).",
+        "technique": "catalogue evaluation from syntax-tree literals + MIR/syntax conformance of the formulas",
+    },
 }
 
 NOT_APPLICABLE = {p: _PENDING for p in
-                  ["C01", "C03", "C04", "C05", "C06", "C09", "C10", "C12", "C13", "C14", "C15", "C19", "C20"]}
+                  ["C01", "C04", "C05", "C06", "C10", "C14", "C15", "C19", "C20"]}
